@@ -3,7 +3,7 @@ on the final tuple before 'solved' is reported, and the reported vector is the o
 from ..rules import capacity, marks, branching, engine, model, optimize, process, propagators, search, shaving, kinds, bounds, dispatch
 
 EXPLANATION = (
-    "Static analysis, no execution: the engine half of 'reported => satisfies'. Abstract interpretation (affine forms, path-sensitive, loops summarised) of pop_propagator, bound_consistency_algorithm (both dispatch modes), solve_one, is_solved, get_solution, decrease_max/increase_min, reset, Problem.init and the multiprocessing parent decides: 'solved' is returned only after the queue scan found no flagged propagator (incl. the one it skips) and is_solved compared MIN/MAX of all shared domains at the current level; a vector is returned only under PROBLEM_BOUND and equals stack[top, dom_indices, MIN] + dom_offsets; every write-back store is a strict tightening with an emptiness test, is announced with exactly the bits of the stored bounds and GROUND when the stored domain may be a single value; the wake-up table joins the events of variables sharing a domain; each filtering function's bound dependences are covered by its declared triggers; the enabled flags are cleared only for the propagator that answered PROP_ENTAILMENT at the level current at entry; no function outside the protocol writes the domain stack; the parent forwards exactly what a worker sent. Does not decide what a constraint answers when executed (C06). Further clauses: the wake-up primitive scans every constraint, never clears a flag and passes over a constraint only when it is disabled or does not watch an announced event; only pop_propagator clears a queue flag, and never on a path that reports 'empty'; the enabled-flags row consulted by a wake-up is the current level's (or one below it); a restart and a new solver leave every constraint queued; every decision announces the bounds it moved (return mask and replay records of all value heuristics) and every new level is a copy of the level branched from; a block that enforces a + k <= b answers 'entailed' only under a.MAX + k <= b.MIN; Optional[int] API arguments are tested with `is None`; the protocol constants are a proper vocabulary (distinct event bits, distinct statuses). Round 3: the write-back compares both bounds with the filtered view on every iteration that stores nothing; no value is used both as a variable index and as a shared-domain index (interprocedural, incl. counts and returned positions); interval sums over signed coefficients are symmetric; no 32-bit element-wise arithmetic in filtering functions; what shaving hands back is a propagated state (un-probing re-queues, status forwarding)."
+    "Static analysis, no execution: the engine half of 'reported => satisfies'. Abstract interpretation (affine forms, path-sensitive, loops summarised) of pop_propagator, bound_consistency_algorithm (both dispatch modes), solve_one, is_solved, get_solution, decrease_max/increase_min, reset, Problem.init and the multiprocessing parent decides: 'solved' is returned only after the queue scan found no flagged propagator (incl. the one it skips) and is_solved compared MIN/MAX of all shared domains at the current level; a vector is returned only under PROBLEM_BOUND and equals stack[top, dom_indices, MIN] + dom_offsets; every write-back store is a strict tightening with an emptiness test, is announced with exactly the bits of the stored bounds and GROUND when the stored domain may be a single value; the wake-up table joins the events of variables sharing a domain; each filtering function's bound dependences are covered by its declared triggers; the enabled flags are cleared only for the propagator that answered PROP_ENTAILMENT at the level current at entry; no function outside the protocol writes the domain stack; the parent forwards exactly what a worker sent. Does not decide what a constraint answers when executed (C06). Further clauses: the wake-up primitive scans every constraint, never clears a flag and passes over a constraint only when it is disabled or does not watch an announced event; only pop_propagator clears a queue flag, and never on a path that reports 'empty'; the enabled-flags row consulted by a wake-up is the current level's (or one below it); a restart and a new solver leave every constraint queued; every decision announces the bounds it moved (return mask and replay records of all value heuristics) and every new level is a copy of the level branched from; a block that enforces a + k <= b answers 'entailed' only under a.MAX + k <= b.MIN; Optional[int] API arguments are tested with `is None`; the protocol constants are a proper vocabulary (distinct event bits, distinct statuses). Round 3: the write-back compares both bounds with the filtered view on every iteration that stores nothing; no value is used both as a variable index and as a shared-domain index (interprocedural, incl. counts and returned positions); interval sums over signed coefficients are symmetric; no 32-bit element-wise arithmetic in filtering functions; what shaving hands back is a propagated state (un-probing re-queues, status forwarding). Round 6: bounds derived by division in the linear constraints agree with the interval accumulators they come from (own contribution added back, stored on the other side, sign of the quotient, rounded towards the inside: R-AFFINE-BOUND); both bounds of a count reach a failure exit (R-TWO-SIDED); a mark array is cleared between a verdict and the next marking pass (R-MARK-REUSE, the two reachability tests of the connectivity constraint); a filtering function never updates its parameters in place; every constraint column of the wake-up table is filled from the trigger function of that very constraint, called in that iteration with its own arity and parameters; every posted constraint stays posted (who may write the list of constraints); domain values and view offsets have one integer type in every array that carries them; no division by a possibly-zero quantity behind a function pointer."
 )
 
 
